@@ -63,6 +63,28 @@ def r1_acceptance(ctx):
             want = ["bottom", "candidate" if accept else "current"]
             if st != want:
                 bad.append(ctxs + ("leaves the stack %s; the Metropolis rule %s the candidate, expected %s" % (st, "accepts" if accept else "rejects", want),))
+    # documented: `Err` if the two top-most populations do not contain exactly one individual - an error, never a panic
+    bad_doc = []
+    shapes = [("bottom", "current", "candidate", nc, nk) for nc in (0, 1, 2) for nk in (0, 1, 2) if (nc, nk) != (1, 1)] + [(None, None, "candidate", 1, 1), (None, None, None, 0, 0)]
+    for (b_, c_, k_, nc, nk) in shapes:
+        popsym = Sym("populations", {sf: Sym("stack")})
+        table = {"mahf::state::State::populations_mut": popsym, "mahf::state::State::populations": popsym, "mahf::state::State::random_mut": Sym("rng"),
+                 "rand::rng::Rng::gen": 0.5,
+                 "mahf::state::registry::StateRegistry::get_value": lambda interp, env, f, args: 1.0 if (f.get("gargs") or [""])[0] == TEMP else TOP}
+        it = install(Interp(fn.body, chain(mk_oracle(table), StackModel(sf), coll_oracle, std_oracle), [Sym("self"), Sym("problem"), Sym("state")], facts=F,
+                            inline=lambda k: k.startswith(POP + "::") or c07.INLINE(k), max_visits=8, max_paths=300))
+        stack = tuple(Vec(x) for x in (b_, c_, k_) if x)
+        it.init_state = {"stack": stack, "next_vec": 0,
+                         "heap": {"bottom": (indiv("b", 9.0),), "current": tuple(indiv("cur%d" % i, 5.0) for i in range(nc)), "candidate": tuple(indiv("cand%d" % i, 4.0) for i in range(nk))}}
+        n += 1
+        for p in it.run():
+            what = "%d population(s) on the stack" % len(stack) if len(stack) < 2 else "current population of %d, candidate population of %d individuals" % (nc, nk)
+            if p.end in ("panic", "diverge"):
+                bad_doc.append((what, "panics"))
+            elif p.end != "return" or not (isinstance(p.ret, Agg) and p.ret.variant == "Err"):
+                bad_doc.append((what, "ends with %s %s" % (p.end, p.ret)))
+    ctx.check(not bad_doc, "C17.R1", fn.key, "malformed-input-is-an-error",
+              "%s (documented: `Err` if the two top-most populations do not contain exactly one individual): the acceptance %s" % (bad_doc[0] if bad_doc else ("", "")), loc=fn.loc())
     ctx.check(not bad, "C17.R1", fn.key, "metropolis-rule", "candidate %s vs current %s, T=%s, draw=%s: acceptance %s" % (bad[0] if bad else ("", "", "", "", "")), detail="%d scenarios" % n, loc=fn.loc())
     ctx.count("acceptance_scenarios", n)
     ini = F.method(ACC, "init", "mahf::components::Component")
